@@ -3,31 +3,25 @@ import MythVerif.Proofs.WsQueueTsoTac
 namespace MythVerif.WsqTso
 open MythVerif.Wsq
 
-set_option maxHeartbeats 4000000 in
 theorem f_T_ptr4_pq (s : St) (p : Pid) (e0 : Elem) (ok : Bool) : Inv s → s.opc = .pq → s.lock = .thief p →
     s.bufT p = [.ptr (s.lb - 1) (some e0), .baseI (s.lb - 1) e0] → s.tpc p = .tp4 ok →
     Inv (applySto { s with bufT := upd s.bufT p [.baseI (s.lb - 1) e0] } (.ptr (s.lb - 1) (some e0))) := by
   intro h hopc hl h0 h1
   simp only [applySto]
-  cases h; simp only [hopc, ownerLocked, carry, resetting, ownerFlight] at *
-  tso_finish3
+  tso_fastO h hopc [tp3, tp4, carryC]
 
-set_option maxHeartbeats 4000000 in
 theorem f_T_ptr4_po1 (s : St) (p : Pid) (e0 : Elem) (ok : Bool) : Inv s → s.opc = .po1 → s.lock = .thief p →
     s.bufT p = [.ptr (s.lb - 1) (some e0), .baseI (s.lb - 1) e0] → s.tpc p = .tp4 ok →
     Inv (applySto { s with bufT := upd s.bufT p [.baseI (s.lb - 1) e0] } (.ptr (s.lb - 1) (some e0))) := by
   intro h hopc hl h0 h1
   simp only [applySto]
-  cases h; simp only [hopc, ownerLocked, carry, resetting, ownerFlight] at *
-  tso_finish3
+  tso_fastO h hopc [tp3, tp4, carryC]
 
-set_option maxHeartbeats 4000000 in
 theorem f_T_ptr4_pof (s : St) (p : Pid) (e0 : Elem) (ok : Bool) (t) : Inv s → s.opc = .pof t → s.lock = .thief p →
     s.bufT p = [.ptr (s.lb - 1) (some e0), .baseI (s.lb - 1) e0] → s.tpc p = .tp4 ok →
     Inv (applySto { s with bufT := upd s.bufT p [.baseI (s.lb - 1) e0] } (.ptr (s.lb - 1) (some e0))) := by
   intro h hopc hl h0 h1
   simp only [applySto]
-  cases h; simp only [hopc, ownerLocked, carry, resetting, ownerFlight] at *
-  tso_finish3
+  tso_fastO h hopc [tp3, tp4, pof]
 
 end MythVerif.WsqTso
